@@ -34,12 +34,12 @@ def nontrivial(e):
 
 
 def run(ctx):
-    drive = fw.build("std64")
+    drive = fw.build("std64", "c01")
     if ctx.replay:
         case = json.load(open(ctx.replay))["case"]
         p = ctx.path("replay-case.ndjson")
         open(p, "w").write(json.dumps(case) + "\n")
-        tr = ctx.drive(drive, ["c01", "--cases", p, "--n", "0"], "trace-replay.ndjson")
+        tr = ctx.drive(drive, ["--cases", p, "--n", "0"], "trace-replay.ndjson")
         ctx.monitor("replay", "C01", "Trace_C01.tla", "Trace_C01.cfg", tr)
         return ctx.finish()
     # spec -> impl: the partition enumerated by TLC
@@ -49,11 +49,11 @@ def run(ctx):
     cfg = fw.write_cfg(ctx.path("Gen_C01.cfg"), invariants=["Emit"],
                        constants={"Classes": fw.tla_set(classes), "K": k, "Seed": ctx.seed % 1000})
     cases, ncases = ctx.gen("gen", "C01", "Gen_C01.tla", cfg)
-    tr1 = ctx.drive(drive, ["c01", "--cases", cases, "--n", "0"], "trace-gen.ndjson")
+    tr1 = ctx.drive(drive, ["--cases", cases, "--n", "0"], "trace-gen.ndjson")
     ctx.monitor("mon-gen", "C01", "Trace_C01.tla", "Trace_C01.cfg", tr1, nontrivial=nontrivial, cover=cover)
     # impl -> spec: seeded random operands, unbalanced sizes
     n = ctx.pick(1500, 12000)
-    tr2 = ctx.drive(drive, ["c01", "--seed", str(ctx.seed), "--n", str(n), "--max-words", str(ctx.pick(40, 70))], "trace-rnd.ndjson")
+    tr2 = ctx.drive(drive, ["--seed", str(ctx.seed), "--n", str(n), "--max-words", str(ctx.pick(40, 70))], "trace-rnd.ndjson")
     ctx.monitor("mon-rnd", "C01", "Trace_C01.tla", "Trace_C01.cfg", tr2, nontrivial=nontrivial, cover=cover, timeout=3000)
     return ctx.finish(
         rule="one event = one operation on one operand pair executed in every call form; distinct = distinct "
@@ -67,8 +67,8 @@ def run(ctx):
 
 def selftest(ctx):
     """binding demonstration: corrupt one recorded result, the monitor must reject exactly that event"""
-    drive = fw.build("std64")
-    tr = ctx.drive(drive, ["c01", "--seed", "5", "--n", "60", "--max-words", "8"], "trace.ndjson")
+    drive = fw.build("std64", "c01")
+    tr = ctx.drive(drive, ["--seed", "5", "--n", "60", "--max-words", "8"], "trace.ndjson")
     lines = open(tr).read().split("\n")
     e = json.loads(lines[30])
     g = [o for o in e["outs"] if o["out"]["k"] == "ok"][0]
